@@ -26,15 +26,14 @@ EXPLANATION = ('theorems C16_* (coq/props/C16.v) hold for all lists over any typ
 TRUSTED = ['modelled, not verified: CPython dict (insertion-ordered map with in-place assignment), set iteration order (any permutation; proved irrelevant), '
            'copy.copy of a dict subclass (fresh object with the same items), inspect-based getargs (names of positional parameters)']
 ASSUMPTIONS = ['elements are hashable with a lawful == (no NaN)', 'mapping keys are str without dots, values are leaves (not dicts); nested merge is C15',
-               'callables passed to Dict.__call__ take positional parameters without defaults and do not raise',
-               "no mapping entry or derived key is named 'self': Python binds it to the method's own self parameter (Dict.__call__(self, **kwargs), "
-               "wrapper.__call__(self, *args, **kwargs)), so Dict(...)(self = ...) and any Dict.apply on a mapping holding an entry 'self' raise TypeError"]
+               'callables passed to Dict.__call__ take positional parameters without defaults and do not raise']
 EXHAUSTIVE = {'quick': False, 'thorough': False}
 LEVEL_TEXT = ('machine-checked Coq theorems (C16_*) for all lists / mappings / dependency graphs and every keyword permutation, about executable models of '
               'ulist, dictattr and Dict.__call__; the models are compared with the real classes inside Coq on every loop-free dependency graph with <= 4 '
               'derived keys in every keyword order and on thousands of generated operator cases')
-LEVEL_NOTE = ('trusted: Coq kernel/vm_compute; modelled not verified: CPython dict/set/copy semantics. Known finding: Dict + <instance of a dict subclass other '
-              'than dict/dictattr/Dict> raises ValueError (tree_update recognises branches by exact type)')
+LEVEL_NOTE = ('trusted: Coq kernel/vm_compute; modelled not verified: CPython dict/set/copy semantics. Known findings: Dict + <instance of a dict subclass other '
+              "than dict/dictattr/Dict> raises ValueError (tree_update recognises branches by exact type); a mapping entry or keyword literally named 'self' makes "
+              'Dict.__call__ raise TypeError (theorems assume self_free; Coq: C16_call_self_named_key_refuted)')
 TECHNIQUE = 'Coq proof (induction, invariant over the round loop, uniqueness of solutions of an acyclic equation system) + differential correspondence in vm_compute'
 
 INCLUDE_SUBCLASS_OTHER = True     # generate Dict-family + user-subclass operands (the known finding class)
@@ -513,7 +512,7 @@ def gen_call(rng, tier):
 # names the implementation injects ('key' = the name being computed) or uses internally: as entries of the mapping and as
 # derived keys they must behave like any other name - the mapping's own value wins over the injected default
 COLLIDE = ['key', 'value', 'args', 'kwargs', 'function', 'res', 'callables', 'keys', 'cls']
-INCLUDE_SELF_KEY = False    # a mapping entry named 'self' makes every Dict.apply fail (TypeError: multiple values for 'self'); see ASSUMPTIONS
+INCLUDE_SELF_KEY = True     # a mapping entry / keyword named 'self' makes Dict.__call__ raise TypeError (multiple values for 'self'): KNOWN FINDING c16_self_named_key
 
 def gen_collide(rng, tier):
     out = []
@@ -525,7 +524,7 @@ def gen_collide(rng, tier):
             out.append({'kind': 'call', 'cls': cls, 'base': [['a', 1], [nm, 2]], 'kw': [['k1', {'f': [nm, 'a']}], ['k2', {'f': ['k1', nm]}]], 'perms': 'all'})
             # the name is a constant among the keywords
             out.append({'kind': 'call', 'cls': cls, 'base': [['a', 1]], 'kw': [[nm, {'c': 7}], ['k1', {'f': ['a', nm]}]], 'perms': 'all'})
-            if nm != 'self':
+            if True:
                 # the name is itself a derived key, with and without an older value in the mapping
                 out.append({'kind': 'call', 'cls': cls, 'base': [['a', 1]], 'kw': [[nm, {'f': ['a']}], ['z', {'f': [nm]}]], 'perms': 'all'})
                 out.append({'kind': 'call', 'cls': cls, 'base': [['a', 1], [nm, 2]], 'kw': [[nm, {'f': ['a']}], ['z', {'f': [nm, 'a']}], ['y', {'f': ['z']}]], 'perms': 'all'})
